@@ -214,8 +214,14 @@ func (r *c15Run) mkMsgs(class string, fail bool) ([]sdk.Msg, string, sdkmath.Int
 		if fail {
 			a = chain.FX(900_000_000)
 		}
-		m := &distrtypes.MsgCommunityPoolSpend{Authority: gov, Recipient: c.Users[4].Bech32(), Amount: sdk.NewCoins(sdk.NewCoin(fxtypes.DefaultDenom, a))}
-		return []sdk.Msg{m}, egfURL, a
+		// one to three spends in one proposal: the share is taken of the total requested
+		msgs := []sdk.Msg{&distrtypes.MsgCommunityPoolSpend{Authority: gov, Recipient: c.Users[4].Bech32(), Amount: sdk.NewCoins(sdk.NewCoin(fxtypes.DefaultDenom, a))}}
+		for n := r.rng.IntN(3); n > 0 && !fail; n-- {
+			b := chain.FX([]int64{500, 40_000, 60_000, 150_000}[r.rng.IntN(4)])
+			msgs = append(msgs, &distrtypes.MsgCommunityPoolSpend{Authority: gov, Recipient: c.Users[4].Bech32(), Amount: sdk.NewCoins(sdk.NewCoin(fxtypes.DefaultDenom, b))})
+			a = a.Add(b)
+		}
+		return msgs, egfURL, a
 	case "bank":
 		// a type whose custom parameters come and go
 		m := &banktypes.MsgSetSendEnabled{Authority: gov, SendEnabled: []*banktypes.SendEnabled{{Denom: "apple", Enabled: !fail}}}
@@ -494,7 +500,9 @@ func (r *c15Run) block(dt time.Duration) bool {
 				r.res.Violate("C15/tally-outcome/"+p.class, "proposal %d (%s): participation %s, quorum of its type %s, votes %v: expected %s, stored %v", p.id, p.class, d.part, p.quorum, p.votes, want, sp.Status)
 			}
 			if d.passes && !p.execFails && p.class == "egf" {
-				egfPaid = egfPaid.Add(p.msgs[0].(*distrtypes.MsgCommunityPoolSpend).Amount.AmountOf(fxtypes.DefaultDenom))
+				for _, pm := range p.msgs {
+					egfPaid = egfPaid.Add(pm.(*distrtypes.MsgCommunityPoolSpend).Amount.AmountOf(fxtypes.DefaultDenom))
+				}
 			}
 		}
 		r.outcomes[p.outcome]++
